@@ -75,7 +75,7 @@ macro_rules! c18_signed {
 /// multiplying / dividing forwarders and the Integer contract, exact against i32 arithmetic (W <= 16 bits)
 #[macro_export]
 macro_rules! c18_integer {
-    ($name:ident, $unw:expr, $T:ty, $D:ty, $N:expr, $steps:expr) => {
+    ($name:ident, $unw:expr, $T:ty, $D:ty, $N:expr) => {
         $crate::harness!($name, $unw, {
             use $crate::util::*;
             use num_traits::*;
@@ -113,19 +113,6 @@ macro_rules! c18_integer {
                 assert!(Integer::is_multiple_of(&a, &b) == (r == 0) && Integer::divides(&a, &b) == (r == 0), "is_multiple_of / divides");
                 $crate::reach!(adj && x < 0, "floor differs from truncation");
             }
-            // gcd by Euclid ($steps iterations suffice for W bits), lcm = |x / g * y|
-            let (mut g, mut h) = (if x < 0 { -x } else { x }, if y < 0 { -y } else { y });
-            let mut k = 0;
-            while k < $steps { if h != 0 { let t = g % h; g = h; h = t; } k += 1; }
-            assert!(h == 0, "oracle: Euclid finished");
-            if fits(g) { assert!(val(&Integer::gcd(&a, &b).dg()) == g, "gcd is the non-negative greatest common divisor"); }
-            if x != 0 && y != 0 {
-                let l = { let v = x / g * y; if v < 0 { -v } else { v } };
-                if fits(l) && fits(x / g * y) { assert!(val(&Integer::lcm(&a, &b).dg()) == l, "lcm is the least common multiple"); }
-            } else {
-                assert!(Integer::lcm(&a, &b).is_zero(), "lcm with zero is zero");
-            }
-            $crate::reach!(g > 1 && x != y && x != 0 && y != 0, "non-trivial gcd");
         });
     };
 }
@@ -140,14 +127,14 @@ macro_rules! c18_roots_trivial {
             let (u, ud) = <$U as BN<$D, $N>>::any();
             let s = <$I>::from_bits(u);
             assert!(deq(&Roots::nth_root(&u, 1).dg(), &ud) && deq(&Roots::nth_root(&s, 1).dg(), &ud), "nth_root(1) is the identity");
-            let small: bool = $crate::nd::nd();
-            let z = if small { <$U>::ONE } else { <$U>::ZERO };
+            // roots of the constants 0 and 1 for every degree >= 1 (concrete receivers keep the Newton iteration out of the formula)
             let n: u32 = $crate::nd::nd();
             $crate::nd::assume(n >= 1);
-            assert!(deq(&Roots::sqrt(&z).dg(), &z.dg()) && deq(&Roots::cbrt(&z).dg(), &z.dg()) && deq(&Roots::nth_root(&z, n).dg(), &z.dg()), "roots of 0 and 1");
-            let sz = <$I>::from_bits(z);
-            assert!(deq(&Roots::sqrt(&sz).dg(), &z.dg()) && deq(&Roots::cbrt(&sz).dg(), &z.dg()) && deq(&Roots::nth_root(&sz, n).dg(), &z.dg()), "signed roots of 0 and 1");
-            $crate::reach!(n > 1000 && small, "large degree");
+            assert!(Roots::sqrt(&<$U>::ZERO).is_zero() && Roots::cbrt(&<$U>::ZERO).is_zero() && Roots::nth_root(&<$U>::ZERO, n).is_zero(), "roots of 0");
+            assert!(Roots::sqrt(&<$U>::ONE).is_one() && Roots::cbrt(&<$U>::ONE).is_one() && Roots::nth_root(&<$U>::ONE, n).is_one(), "roots of 1");
+            assert!(Roots::sqrt(&<$I>::ZERO).is_zero() && Roots::cbrt(&<$I>::ZERO).is_zero() && Roots::nth_root(&<$I>::ZERO, n).is_zero(), "signed roots of 0");
+            assert!(Roots::sqrt(&<$I>::ONE).is_one() && Roots::cbrt(&<$I>::ONE).is_one() && Roots::nth_root(&<$I>::ONE, n).is_one(), "signed roots of 1");
+            $crate::reach!(n > 1000, "large degree");
         });
     };
 }
@@ -158,18 +145,54 @@ macro_rules! c18_roots_panic {
         $crate::panic_harness!($name, $unw, {
             use $crate::util::*;
             use num_integer::Roots;
-            let (u, ud) = <$U as BN<$D, $N>>::any();
+            let (u, _) = <$U as BN<$D, $N>>::any();
             let s = <$I>::from_bits(u);
             let sel: u8 = $crate::nd::nd();
-            let n: u32 = $crate::nd::nd();
-            $crate::nd::assume(sel < 4);
+            $crate::nd::assume(sel < 8);
+            $crate::reach!(sel == 0, "zeroth root"); $crate::reach!(sel == 3, "sqrt of MIN"); $crate::reach!(sel == 7, "even root of -1");
             match sel {
-                0 => { $crate::reach!(true, "zeroth root"); let _ = Roots::nth_root(&u, 0); }
-                1 => { $crate::reach!(true, "signed zeroth root"); let _ = Roots::nth_root(&s, 0); }
-                2 => { $crate::nd::assume(dneg(&ud)); $crate::reach!(true, "sqrt of a negative"); let _ = Roots::sqrt(&s); }
-                _ => { $crate::nd::assume(dneg(&ud) && n % 2 == 0 && n >= 2); $crate::reach!(true, "even root of a negative"); let _ = Roots::nth_root(&s, n); }
+                0 => { let _ = Roots::nth_root(&u, 0); }
+                1 => { let _ = Roots::nth_root(&s, 0); }
+                2 => { let _ = Roots::sqrt(&<$I>::NEG_ONE); }
+                3 => { let _ = Roots::sqrt(&<$I>::MIN); }
+                4 => { let _ = Roots::nth_root(&<$I>::NEG_ONE, 2); }
+                5 => { let _ = Roots::nth_root(&<$I>::MIN, 4); }
+                6 => { let _ = Roots::nth_root(&<$I>::NEG_TEN, 100); }
+                _ => { let _ = Roots::nth_root(&<$I>::NEG_ONE, u32::MAX - 1); }
             }
             $crate::noreturn!("root of an invalid argument returned");
+        });
+    };
+}
+
+/// gcd / lcm against Euclid ($steps iterations suffice for W bits)
+#[macro_export]
+macro_rules! c18_gcd {
+    ($name:ident, $unw:expr, $T:ty, $D:ty, $N:expr, $steps:expr) => {
+        $crate::harness!($name, $unw, {
+            use $crate::util::*;
+            use num_integer::Integer;
+            const W: u32 = <$D>::BITS * $N;
+            const S: bool = <$T as BN<$D, $N>>::SIGNED;
+            let (a, ad) = <$T as BN<$D, $N>>::any();
+            let (b, bd) = <$T as BN<$D, $N>>::any();
+            let val = |d: &[$D; $N]| if S { dval_i128(d) as i32 } else { dval_u128(d) as i32 };
+            let (x, y) = (val(&ad), val(&bd));
+            let (lo, hi) = if S { (-(1i32 << (W - 1)), (1i32 << (W - 1)) - 1) } else { (0, (1i32 << W) - 1) };
+            let fits = |v: i32| v >= lo && v <= hi;
+            // gcd by Euclid ($steps iterations suffice for W bits), lcm = |x / g * y|
+            let (mut g, mut h) = (if x < 0 { -x } else { x }, if y < 0 { -y } else { y });
+            let mut k = 0;
+            while k < $steps { if h != 0 { let t = g % h; g = h; h = t; } k += 1; }
+            assert!(h == 0, "oracle: Euclid finished");
+            if fits(g) { assert!(val(&Integer::gcd(&a, &b).dg()) == g, "gcd is the non-negative greatest common divisor"); }
+            if x != 0 && y != 0 {
+                let l = { let v = x / g * y; if v < 0 { -v } else { v } };
+                if fits(l) && fits(x / g * y) { assert!(val(&Integer::lcm(&a, &b).dg()) == l, "lcm is the least common multiple"); }
+            } else {
+                assert!(Integer::lcm(&a, &b).is_zero(), "lcm with zero is zero");
+            }
+            $crate::reach!(g > 1 && x != y && x != 0 && y != 0, "non-trivial gcd");
         });
     };
 }
